@@ -39,6 +39,8 @@ def find_status(a, st, v, depth=0):
             vs = a.cr.adts.get("rules::ClauseCheck", {}).get("variants", [])
             if v[2] < len(vs) and vs[v[2]]["name"] == "Success":
                 return "PASS"
+            if v[2] < len(vs) and vs[v[2]]["name"] == "NoValueForEmptyCheck":
+                return "FAIL"     # this variant carries no status field and exists only for failures
         for x in v[3]:
             r = find_status(a, st, x, depth + 1)
             if r is not None:
@@ -203,7 +205,7 @@ class StatusHooks(AIM.Hooks):
             self_ty = fn.get("impl_self")
             if self_ty is not None:
                 p = self.cr.ty_adt(self_ty)
-                if p in (STATUS, "rules::exprs::CmpOperator"):
+                if p in (STATUS, "rules::values::CmpOperator"):
                     return True
         return False
 
